@@ -29,7 +29,7 @@ type vxC06Step struct {
 	Op    string `json:"op"`              // submit answer cancel nodecut connclose check
 	N     int    `json:"n,omitempty"`     // submit: callers; answer/cancel: how many
 	Key   int    `json:"key,omitempty"`   // selects which outstanding callers (rotation)
-	Mode  int    `json:"mode,omitempty"`  // nodecut: 0 between frames, 1 inside a header, 2 inside a body; answer: 1 = ERROR frames, 2 = rows in a frame stamped with another protocol version; submit: 1 = with a custom payload (a frame-build failure below protocol 4)
+	Mode  int    `json:"mode,omitempty"`  // nodecut: 0 between frames, 1 inside a header, 2 inside a body; answer: 1 = ERROR frames, 2 = rows in a frame stamped with another protocol version, 3 = rows in a frame whose body cannot be decoded; submit: 1 = with a custom payload (a frame-build failure below protocol 4)
 }
 
 type vxC06Case struct {
@@ -76,7 +76,7 @@ func vxDrawC06(t *rapid.T) *vxC06Case {
 			}
 		case "answer":
 			st.N = rapid.IntRange(1, 10).Draw(t, "n")
-			st.Mode = []int{0, 0, 0, 1, 2}[rapid.IntRange(0, 4).Draw(t, "amode")]
+			st.Mode = []int{0, 0, 0, 1, 2, 3}[rapid.IntRange(0, 5).Draw(t, "amode")]
 		case "cancel":
 			st.N = rapid.IntRange(1, 4).Draw(t, "n")
 		case "nodecut":
@@ -97,6 +97,7 @@ type vxC06Caller struct {
 	answered bool // an answer (row or error frame) was sent for it
 	asErr    bool
 	wrongVer bool // its answer was stamped with another protocol version
+	undecod  bool // its answer had a body that cannot be decoded (compression flag, nothing negotiated)
 	canceled bool
 	doomed   bool // its connection was cut/closed, or the session was closed, while it was outstanding
 	buildFails bool // its frame cannot be built (custom payload below protocol 4): must end with an error, nothing sent
@@ -326,7 +327,7 @@ func vxRunC06(c *vxC06Case, k *vstats.Case) error {
 				tok := toks[(st.Key+i*7)%len(toks)]
 				for _, cr := range callers {
 					if cr.tok == tok && !cr.answered {
-						cr.answered, cr.asErr, cr.wrongVer = true, st.Mode == 1, st.Mode == 2
+						cr.answered, cr.asErr, cr.wrongVer, cr.undecod = true, st.Mode == 1, st.Mode == 2, st.Mode == 3
 						if mon.answerMode(tok, st.Mode) {
 							who = append(who, cr)
 						}
@@ -464,6 +465,12 @@ func vxRunC06(c *vxC06Case, k *vstats.Case) error {
 			// a response of another protocol version: refusing it is the code's convention (accepting the
 			// row would be as good); what is judged is one return and the stream (check steps)
 			k.Class("outcome=wrong-version-answer-refused")
+		case cr.undecod && err != nil && !errors.Is(err, context.Canceled):
+			// the answer could not be decoded: the caller is told so (its own error, or its connection's if the
+			// driver gives the connection up); what is judged is one return and the stream (check steps)
+			k.Class("outcome=undecodable-answer-refused")
+		case cr.undecod && err == nil:
+			return fmt.Errorf("caller of %s was answered with a frame whose body cannot be decoded and got success (row %q)", cr.tok, got)
 		case err == nil:
 			if cr.wrongVer {
 				k.Class("outcome=wrong-version-answer-accepted")
